@@ -563,6 +563,12 @@ func SchemaMutations() []SchemaMutation {
 			t.Dirs = append(t.Dirs, model.DirUse{Name: "argDirZz", Args: []model.Arg{{Name: "nopeArgZz", Value: int64(1)}}})
 			return "nopeArgZz", true
 		}},
+		{"directive-without-arguments-used-with-one", func(r *rand.Rand, s *model.Schema) (string, bool) {
+			s.Dirs = append(s.Dirs, &model.DirDef{Name: "noArgDirZz", On: []string{"OBJECT", "ENUM", "INTERFACE", "UNION", "INPUT_OBJECT", "SCALAR"}})
+			t := s.Types[r.Intn(len(s.Types))]
+			t.Dirs = append(t.Dirs, model.DirUse{Name: "noArgDirZz", Args: []model.Arg{{Name: "nopeArgZz", Value: int64(3)}}})
+			return "nopeArgZz", true
+		}},
 		{"directive-uncoercible-arg", func(r *rand.Rand, s *model.Schema) (string, bool) {
 			s.Dirs = append(s.Dirs, &model.DirDef{Name: "argDirZz", On: []string{"OBJECT"}, Args: []*model.ArgDef{{Name: "ok", Type: model.Named("Int")}}})
 			t := pickType(r, s, model.Object)
